@@ -10,5 +10,6 @@ CONSTANTS
   QStarts = {0}
   QStops = {5, 6}
   TimeCols = {"none"}
+  EWSAsFound = TRUE
 INVARIANTS TypeOK CursorContract TableContract
 CHECK_DEADLOCK FALSE
